@@ -127,6 +127,7 @@ type HistoryParams struct {
 	Policies       []string
 	CloudFail      bool
 	Phrases        int  // percentage of generation steps that emit a multi-op phrase (default 35)
+	CrFail         bool // some replica lookups of custom-resource apps fail (internal error, not NotFound)
 	AltRanges      bool // workloads may change their pods' request_ip_range between incarnations (pod template edited)
 	FaultPct       int  // percentage of histories in which one API-server call of galaxy-ipam fails (error, no effect)
 }
@@ -467,6 +468,11 @@ func GenHistory(t *rapid.T, hp *HistoryParams) Case {
 		c.FaultAt = &FaultAt{Op: rapid.IntRange(0, len(c.Ops)-1).Draw(t, "faultOp"), Fault: Fault{
 			K: rapid.IntRange(1, 8).Draw(t, "faultK"), Mode: "error",
 			Err: rapid.SampledFrom([]string{"internal", "conflict", "timeout"}).Draw(t, "faultErr")}} // NotFound for an object that exists would be a lie of the API server, not a failure
+	}
+	if hp.CrFail {
+		for i, n := 0, rapid.IntRange(0, 2).Draw(t, "nCrFail"); i < n; i++ {
+			c.CrFail = append(c.CrFail, rapid.IntRange(1, 10).Draw(t, "crFail"))
+		}
 	}
 	if c.Cloud && hp.CloudFail {
 		nf := rapid.IntRange(0, 2).Draw(t, "nCloudFail")
